@@ -132,10 +132,20 @@ type vc13World struct {
 
 	// pub maps a path to the last complete valid body it delivered.
 	pub map[string][]byte
+
+	// timeout is the HTTP timeout of every refreshable.
+	timeout time.Duration
 }
 
 // vc13NewWorld creates the server, the directory and the units.
-func vc13NewWorld(t vc13T, st *vstat.Stats, msgs *dnsmsg.Constructor, baseDir string, cacheOn bool) (w *vc13World) {
+func vc13NewWorld(
+	t vc13T,
+	st *vstat.Stats,
+	msgs *dnsmsg.Constructor,
+	baseDir string,
+	cacheOn bool,
+	timeout time.Duration,
+) (w *vc13World) {
 	dir, err := os.MkdirTemp(baseDir, "cache-")
 	if err != nil {
 		t.Fatalf("harness: creating cache dir: %v", err)
@@ -154,9 +164,10 @@ func vc13NewWorld(t vc13T, st *vstat.Stats, msgs *dnsmsg.Constructor, baseDir st
 		svcOK:    map[string]bool{},
 		svcNil:   map[string]bool{},
 		pub:      map[string][]byte{},
+		timeout:  timeout,
 	}
 
-	w.u, err = vc13NewUnits(dir, w.srv.URL(), w.el, vc13Timeout, cacheOn)
+	w.u, err = vc13NewUnits(dir, w.srv.URL(), w.el, timeout, cacheOn)
 	if err != nil {
 		w.close()
 		t.Fatalf("harness: creating units: %v", err)
@@ -718,7 +729,7 @@ func (w *vc13World) checkRestart(seq *vc13Seq, last *vc13Obs, cacheOn bool) (cla
 	defer w.srv.endRound()
 
 	el := &vc13ErrLog{}
-	u, err := vc13NewUnits(w.dir, w.srv.URL(), el, vc13Timeout, cacheOn)
+	u, err := vc13NewUnits(w.dir, w.srv.URL(), el, w.timeout, cacheOn)
 	if err != nil {
 		t.Fatalf("harness: creating units for restart: %v", err)
 	}
@@ -794,7 +805,7 @@ func (w *vc13World) checkRestart(seq *vc13Seq, last *vc13Obs, cacheOn bool) (cla
 
 // vc13RunSeq runs one sequence against the real code.
 func vc13RunSeq(t vc13T, st *vstat.Stats, msgs *dnsmsg.Constructor, baseDir string, seq *vc13Seq) {
-	w := vc13NewWorld(t, st, msgs, baseDir, seq.CacheOn)
+	w := vc13NewWorld(t, st, msgs, baseDir, seq.CacheOn, vc13Timeout)
 	defer w.close()
 
 	var classes []string
